@@ -28,11 +28,20 @@ def check(run):
     c07.check_bingham(ck)
     c07.check_gaussians(ck)
     c07.close_terms(ck)
+    # the scatter / covariance matrix the component trainers decompose is x x^H, not its transpose: eigh of the transpose returns the CONJUGATED eigenvectors, the density then
+    # scores every observation against conj(prototype) (an einsum without output spec orders its letters alphabetically: 'D' before 'd')
+    from .. import ein
+    for q_ in (D + 'complex_angular_central_gaussian::ComplexAngularCentralGaussianTrainer._fit', D + 'complex_watson::ComplexWatsonTrainer._fit',
+               D + 'complex_bingham::ComplexBinghamTrainer._fit'):
+        for s_ in ein.find_sites(A, q_):
+            if s_.parsed and len(s_.operands) >= 2:
+                ein.check_generic(run, s_)
     # Watson mode / PCA: principal eigenpair
     n = sel.check_principal(run, A, 'pb_bss.utils::get_pca')
     # ... of EVERY matrix of the stack: a per-matrix loop uses its index (the partial scipy solver of get_pca does not, and is dormant)
     from .. import opt
     opt.check_extent_loops(run, A, ['pb_bss.utils', 'pb_bss.distribution.'])
+    opt.check_block_partitions(run, A, ['pb_bss.utils', 'pb_bss.distribution.'])
     fit = A.prog.func(D + 'complex_watson::ComplexWatsonTrainer._fit')
     g = A.graphs.get(fit)
     # mode is the first result of get_pca(covariance), concentration from the second
